@@ -492,9 +492,15 @@ func (s Subtitles) WriteToWebVTT(o io.Writer) (err error) {
 	}
 	c = append(c, []byte("\n\n")...)
 
+	// Loop through styles in a deterministic order
 	var style []string
-	for _, s := range s.Styles {
-		if s.InlineStyle != nil {
+	var styleIDs []string
+	for id := range s.Styles {
+		styleIDs = append(styleIDs, id)
+	}
+	sort.Strings(styleIDs)
+	for _, id := range styleIDs {
+		if s := s.Styles[id]; s != nil && s.InlineStyle != nil {
 			style = append(style, s.InlineStyle.WebVTTStyles...)
 		}
 	}
